@@ -11,7 +11,7 @@ import sys
 import time
 
 ROOT = os.environ.get("VERIF_ROOT", "/verif")
-REPO = "/repo"
+REPO = os.environ.get("VERIF_REPO", "/repo")   # VERIF_REPO: run the checks against another checkout (used by bin/seedtest)
 BUILD = os.path.join(ROOT, "build")
 COQ = os.path.join(ROOT, "coq")
 GOENV = dict(os.environ, GOFLAGS="-mod=mod", GOPROXY="off")
@@ -90,7 +90,7 @@ def build_translators(only=None):
         if not os.path.isdir(src):
             continue
         binp = os.path.join(BUILD, name)
-        rc, out = sh(["go", "build", "-o", binp, "./cmd/" + pkg], cwd=os.path.join(ROOT, "translator"), timeout=600)
+        rc, out = sh(["go", "build"] + _modfile("translator") + ["-o", binp, "./cmd/" + pkg], cwd=os.path.join(ROOT, "translator"), timeout=600)
         if rc == 0:
             rc, out2 = sh([binp] + args, timeout=900)
             out += out2
@@ -147,6 +147,18 @@ def vo_ok(rel_v):
     return True
 
 
+def _modfile(module_dir):
+    """With VERIF_REPO set, build against that checkout through a generated -modfile."""
+    if REPO == "/repo":
+        return []
+    src = open(os.path.join(ROOT, module_dir, "go.mod")).read().replace("=> /repo", "=> " + REPO)
+    os.makedirs(BUILD, exist_ok=True)
+    mf = os.path.join(BUILD, module_dir + ".alt.mod")
+    open(mf, "w").write(src)
+    open(os.path.join(BUILD, module_dir + ".alt.sum"), "a").close()
+    return ["-modfile=" + mf]
+
+
 def build_go(pkgs=("dch",), race=False):
     res = {}
     for pkg in pkgs:
@@ -155,7 +167,7 @@ def build_go(pkgs=("dch",), race=False):
             res[pkg] = (1, "missing " + src)
             continue
         out = os.path.join(BUILD, pkg + ("_race" if race else ""))
-        cmd = ["go", "build", "-tags", "verif"] + (["-race"] if race else []) + ["-o", out, "./cmd/" + pkg]
+        cmd = ["go", "build"] + _modfile("harness") + ["-tags", "verif"] + (["-race"] if race else []) + ["-o", out, "./cmd/" + pkg]
         res[pkg] = sh(cmd, cwd=os.path.join(ROOT, "harness"), timeout=900)
     return res
 
